@@ -77,7 +77,7 @@ def build_harness():
 
 # which regenerated tables each property's model, theorems or generators use (enums: every Lean file)
 GEN_DEPENDS = {
-    'C01': ['enums', 'parse'], 'C02': ['enums', 'lex', 'parse'], 'C03': ['enums', 'lex', 'parse'], 'C04': ['enums', 'lex', 'parse', ('RuntimeRefineCast', 'Garnish.Props.RuntimeRefine', r'^(C01_refine_(step|handler)_applyType|handlerSim_of_refinesCast)$'), ('C19Store', 'Garnish.Props.C19Store', r'^(basicStore_|decodes_of_unfold$)'), ('SourceProps5', 'Garnish.Props.SourceProps', r'^C01_'), ('RuntimeRefineSimple', 'Garnish.Props.RuntimeRefine', r'^C01_'), ('RuntimeRefineSimple2', 'Garnish.Props.RuntimeRefine', r'^C01_'), ('C01TextStoreSimple', 'Garnish.Props.C01TextStore', r'^C01_'), ('RuntimeRefineSimpleOn', 'Garnish.Props.RuntimeRefine', r'^C01_'), ('RuntimeRefineOn', 'Garnish.Props.RuntimeRefine', r'^C01_'), ('C01TextStoreOn', 'Garnish.Props.C01TextStore', r'^C01_'), ('RuntimeRefineOn1', 'Garnish.Props.RuntimeRefine', r'^C01_'), ('RuntimeRefineOn1', 'Garnish.Props.C01TextStore', r'^C01_'), ('RuntimeRefineOn2', 'Garnish.Props.RuntimeRefine', r'^C01_'), ('RuntimeRefineOn2', 'Garnish.Props.C01TextStore', r'^C01_'), ('C19StoreOn', 'Garnish.Props.C19StoreOn', r'^(basicStore_|basic_)'), ('RuntimeRefineOn3', 'Garnish.Props.RuntimeRefine', r'^C01_'), ('RuntimeRefineOn3', 'Garnish.Props.C01TextStore', r'^C01_'), ('RuntimeRefineOn4', 'Garnish.Props.RuntimeRefine', r'^C01_'), ('RuntimeRefineOn4', 'Garnish.Props.C01TextStore', r'^C01_'), ('RuntimeRefineOnBalanced', 'Garnish.Props.RuntimeRefine', r'^C01_'), ('C01TextStoreOnBalanced', 'Garnish.Props.C01TextStore', r'^C01_'), ('RuntimeRefineNoCustom', 'Garnish.Props.RuntimeRefine', r'^C01_'), ('C01TextStoreOnBalancedFull', 'Garnish.Props.C01TextStore', r'^C01_'), ('C01TextStoreOnBy', 'Garnish.Props.C01TextStore', r'^C01_'), ('C01BuilderAddresses', 'Garnish.Props.C01TextStore', r'^real_|^reloc_')],
+    'C01': ['enums', 'parse'], 'C02': ['enums', 'lex', 'parse'], 'C03': ['enums', 'lex', 'parse'], 'C04': ['enums', 'lex', 'parse', ('RuntimeRefineCast', 'Garnish.Props.RuntimeRefine', r'^(C01_refine_(step|handler)_applyType|handlerSim_of_refinesCast)$'), ('C19Store', 'Garnish.Props.C19Store', r'^(basicStore_|decodes_of_unfold$)'), ('SourceProps5', 'Garnish.Props.SourceProps', r'^C01_'), ('RuntimeRefineSimple', 'Garnish.Props.RuntimeRefine', r'^C01_'), ('RuntimeRefineSimple2', 'Garnish.Props.RuntimeRefine', r'^C01_'), ('C01TextStoreSimple', 'Garnish.Props.C01TextStore', r'^C01_'), ('RuntimeRefineSimpleOn', 'Garnish.Props.RuntimeRefine', r'^C01_'), ('RuntimeRefineOn', 'Garnish.Props.RuntimeRefine', r'^C01_'), ('C01TextStoreOn', 'Garnish.Props.C01TextStore', r'^C01_'), ('RuntimeRefineOn1', 'Garnish.Props.RuntimeRefine', r'^C01_'), ('RuntimeRefineOn1', 'Garnish.Props.C01TextStore', r'^C01_'), ('RuntimeRefineOn2', 'Garnish.Props.RuntimeRefine', r'^C01_'), ('RuntimeRefineOn2', 'Garnish.Props.C01TextStore', r'^C01_'), ('C19StoreOn', 'Garnish.Props.C19StoreOn', r'^(basicStore_|basic_)'), ('RuntimeRefineOn3', 'Garnish.Props.RuntimeRefine', r'^C01_'), ('RuntimeRefineOn3', 'Garnish.Props.C01TextStore', r'^C01_'), ('RuntimeRefineOn4', 'Garnish.Props.RuntimeRefine', r'^C01_'), ('RuntimeRefineOn4', 'Garnish.Props.C01TextStore', r'^C01_'), ('RuntimeRefineOnBalanced', 'Garnish.Props.RuntimeRefine', r'^C01_'), ('C01TextStoreOnBalanced', 'Garnish.Props.C01TextStore', r'^C01_'), ('RuntimeRefineNoCustom', 'Garnish.Props.RuntimeRefine', r'^C01_'), ('C01TextStoreOnBalancedFull', 'Garnish.Props.C01TextStore', r'^C01_'), ('C01TextStoreOnBy', 'Garnish.Props.C01TextStore', r'^C01_'), ('C01BuilderAddresses', 'Garnish.Props.C01TextStore', r'^real_|^reloc_'), ('RuntimeRefineNoHcalls', 'Garnish.Props.RuntimeRefine', r'^C01_'), ('RuntimeRefineNoHcalls', 'Garnish.Props.C01TextStore', r'^C01_')],
     'C05': ['enums', 'parse'], 'C06': ['enums'], 'C07': ['enums'], 'C08': ['enums'], 'C09': ['enums'], 'C10': ['enums', 'runtime', ('SourceProps', 'Garnish.Props.SourceProps', r'^C05_')],
     'C11': ['enums'], 'C12': ['enums'], 'C13': ['enums', 'lex'], 'C14': ['enums', 'lex'], 'C15': ['enums'], 'C16': ['enums', ('RuntimeRefineInternals', 'Garnish.Props.RuntimeRefine', r'^C11_'), ('SourceProps5', 'Garnish.Props.SourceProps', r'^C11_'), ('C14Lex', 'Garnish.Props.C14Lex', r'^C11_')],
     'C17': ['enums'], 'C18': ['enums', 'lex', 'parse'], 'C19': ['enums'], 'C20': ['enums', 'parse', ('SourceProps', 'Garnish.Props.SourceProps', r'^C17_'), ('RuntimeRefineTrace', 'Garnish.Props.RuntimeRefine', r'^C17_'), ('RuntimeRefineRunTrace', 'Garnish.Props.RuntimeRefine', r'^C17_'), ('RuntimeRefineRunTrace', 'Garnish.Props.C01TextStore', r'^C17_')],
